@@ -33,7 +33,7 @@ HARNESS_ENV = {}       # extra environment of the harness process, from the chec
 
 # memcheck on the PLAIN build: addressability errors only (reads / writes outside allocated blocks, bad frees) — also inside
 # libraries that are not instrumented, which the sanitizer build cannot see into (libhdf5); stop at the first error
-VALGRIND = ['valgrind', '-q', '--error-exitcode=97', '--exit-on-first-error=yes', '--undef-value-errors=no', '--leak-check=no',
+VALGRIND = ['valgrind', '-q', '--error-exitcode=97', '--exit-on-first-error=yes', '--leak-check=no',
             '--num-callers=25']
 
 def run_harness(nixdrv, lines, workdir, sync=False, timeout=900, asan=False, prefix=None):
@@ -255,7 +255,7 @@ def write_replay(pid, f, lines, ctx, note):
             o.write('# verdict: %s\n' % vl)
         o.write('# replay: bin/check %s --replay %s\n' % (pid, os.path.relpath(p, VERIF)))
         if f.case.meta.get('valgrind'):
-            o.write('# memcheck (plain build under valgrind: addressability errors, also inside libhdf5)\n')
+            o.write('# memcheck (plain build under valgrind: addressability errors and uses of uninitialised values, also inside libhdf5)\n')
         for l in lines:
             o.write(l + '\n')
     return p
